@@ -239,7 +239,7 @@ class Ranges:
         rng = self.ranges
         if len(rng) <= 1:
             return self
-        it = range(min(r['n1'] for r in rng), max(r['n2'] for r in rng) + 1)
+        it = range(max(min(r['n1'] for r in rng), 1), max(r['n2'] for r in rng) + 1)
         it = ['{0}:{0}'.format(_index2col(c)) for c in it]
         cols = Ranges()
         for sheet_id in sorted({r.get('sheet_id', '') for r in rng}):
